@@ -299,6 +299,21 @@ def validation_dominates_stores(ctx):
             ok = True
             if user:
                 ok = bool(vid) and all(g.dominated(i, lambda x: x.id in vid) for i in g.ids_of(n))
+                if not ok and vid:
+                    # `if kwargs: validate(kwargs)` before the store: the only paths that skip the
+                    # validator carry an empty kwargs, from which every .get() yields its default
+                    for vn in vals:
+                        vif = parent(vn.ast)
+                        if isinstance(vif, ast.If) and isinstance(vif.test, ast.Name) and vif.test.id == "kwargs" \
+                                and vn.ast in vif.body and not vif.orelse \
+                                and not any(isinstance(x, (ast.Return, ast.Continue, ast.Break)) for x in ast.walk(vif)) \
+                                and parent(vif) is init.node \
+                                and not any(isinstance(x, ast.Name) and x.id == "kwargs" and isinstance(x.ctx, ast.Store)
+                                            for x in walk_local(init.node)) \
+                                and all(isinstance(c, ast.Call) and call_name(c) == "get" for c in ast.walk(src)
+                                        if isinstance(c, ast.Call) and any(isinstance(x, ast.Name) and x.id == "kwargs"
+                                                                           for x in ast.walk(c.func))):
+                            ok = all(g.dominated(i, lambda x: x.ast is vif and x.kind == "test") for i in g.ids_of(n))
             yield Ob("C14.R1", ["C14"], f"{init.qual} | store | {norm(n, 90)}", ok,
                      ("validated by _validate_kwargs first" if user else "constant default") if ok else
                      "user-supplied value stored without a dominating _validate_kwargs", ctx.prog.loc(n))
@@ -382,12 +397,45 @@ def validation_dominates_stores(ctx):
         found = False
         for n in walk_local(gen.node):
             if isinstance(n, ast.If) and any(isinstance(s, ast.Raise) for s in n.body):
-                t = norm(n.test)
-                if f"not isinstance({slot}, {typ})" in t and f"not callable({slot})" in t:
+                # the test must hold whenever the argument is truthy, not callable and not of the type
+                from ..logic import cnf, consistent_with, formula, negate
+                try:
+                    neg = cnf(negate(formula(n.test)))
+                except ValueError:
+                    continue
+                facts = [(f"truthy({slot})", True), (f"truthy(callable({slot}))", False),
+                         (f"truthy(isinstance({slot}, {typ}))", False)]
+                mentions = {a for c in neg for a, _ in c}
+                if f"truthy(isinstance({slot}, {typ}))" in mentions and not consistent_with(neg, facts):
                     found = True
         yield Ob("C14.R1", ["C14", "C11"], f"{gen.qual} | static {slot} argument validated up front", found,
                  f"non-{typ} static `{slot}` raises before any row is staged" if found else
                  f"no up-front type test for a static `{slot}` argument", gen.loc())
+
+    # (5) the key lists of unset_tags / unset_fields are checked element by element before any row is touched
+    from ..logic import cnf as _cnf, consistent_with as _cw, formula as _fm, negate as _neg
+    for slot in ("unset_tags", "unset_fields"):
+        if slot not in gen.params():
+            continue
+        found = False
+        for n in walk_local(gen.node):
+            if isinstance(n, ast.If) and any(isinstance(s_, ast.Raise) for s_ in n.body):
+                try:
+                    neg = _cnf(_neg(_fm(n.test)))
+                except ValueError:
+                    continue
+                atoms_ = {a_ for c in neg for a_, _ in c}
+                elem = [a_ for a_ in atoms_ if a_.startswith("truthy(all(") and slot in a_ and "isinstance(" in a_ and "str" in a_]
+                if not elem:
+                    continue
+                facts = [(f"truthy({slot})", True), (f"truthy(isinstance({slot}, str))", False), (elem[0], False),
+                         (f"truthy(isinstance({slot}, Iterable))", True)]
+                if not _cw(neg, facts):
+                    found = True
+        yield Ob("C14.R1", ["C14", "C11"], f"{gen.qual} | {slot} keys validated up front", found,
+                 f"a non-string key in `{slot}` raises before any row is staged" if found else
+                 f"no up-front test that every element of `{slot}` is a string: an invalid key raises (if at all) after "
+                 f"earlier keys were already removed from stored points", gen.loc())
 
 
 @rule("C14.R3", ["C14", "C11"], min_instances=1, design="3.14")
@@ -446,7 +494,7 @@ def _utc_normalised(e: ast.AST, f: Func, depth: int = 0) -> bool:
     return False
 
 
-@rule("C08.R1", ["C08", "C04"], min_instances=5, design="3.8")
+@rule("C08.R1", ["C08", "C04", "C01"], min_instances=5, design="3.8")
 def utc_before_strip(ctx):
     """Every datetime stored into a point's time slot by the database is normalised to UTC first; the serialiser strips tzinfo and the deserialiser re-attaches UTC."""
     n_sites = 0
@@ -473,7 +521,7 @@ def utc_before_strip(ctx):
                     if ids and all(g.postdominated(i, renorm, [g.exit]) for i in ids):
                         ok = True
                         how = "every normal path re-stores the slot as <slot>.astimezone(timezone.utc) afterwards"
-                yield Ob("C08.R1", ["C08"], f"{f.qual} | time store | {norm(n, 90)}", ok,
+                yield Ob("C08.R1", ["C08", "C01"], f"{f.qual} | time store | {norm(n, 90)}", ok,
                          how if ok else
                          "stored without astimezone(timezone.utc): the serialiser strips the offset blindly, so a "
                          "non-UTC aware datetime comes back as a different instant", ctx.prog.loc(n))
@@ -497,7 +545,7 @@ def utc_before_strip(ctx):
         r = g.reachable(heads, avoid=normalises, first_labels=lambda l: l == "body")
         for a in apps:
             ok = a.id not in r
-            yield Ob("C08.R1", ["C08", "C04"], f"{ih.qual} | time normalised on every path to the append", ok,
+            yield Ob("C08.R1", ["C08", "C04", "C01"], f"{ih.qual} | time normalised on every path to the append", ok,
                      "every path through the loop body stores a UTC-normalised (or freshly stamped) time before the row "
                      "is serialised" if ok else
                      "some path reaches the storage append without normalising the point's time (e.g. aware non-UTC "
@@ -612,7 +660,7 @@ def _all_params(f: Func) -> Set[str]:
     return out
 
 
-@rule("C08.R3", ["C08", "C07", "C01"], min_instances=8, design="3.8")
+@rule("C08.R3", ["C08", "C07", "C01", "C06", "C09"], min_instances=8, design="3.8")
 def datetime_kind_discipline(ctx):
     """Typestate on datetime values: naive-UTC text from storage is made aware only by replace(tzinfo=utc); naive-local / aware / user values are converted only by astimezone(utc); no zone is ever attached to a value by replace(); timestamp() is never taken of a naive-UTC value."""
     n = 0
@@ -659,6 +707,23 @@ def datetime_kind_discipline(ctx):
                 if NAIVE_UTC in kind:
                     bad = "timestamp() of a naive value holding UTC digits is computed as if it were local time"
             site_props = ["C08"] + (["C07"] if f.name.startswith("get_") else []) + (
-                ["C01"] if f.cls == "Index" and f.name.startswith("_search") else [])
+                ["C01"] if f.cls == "Index" and f.name.startswith("_search") else []) + (
+                ["C09", "C01"] if f.module == "queries" else [])
             yield Ob("C08.R3", site_props, f"{f.qual} | {a} on {'/'.join(sorted(kind))} | {norm(c, 80)}{occ(f, c)}",
                      bad is None, bad or f"{a} is valid for a {sorted(kind)} value", ctx.prog.loc(c))
+    # datetime values enter the package only through the exact constructions; building one from
+    # broken-down components (datetime(*gmtime(ts)[:6]), strptime, combine) drops the microseconds
+    EXACT = ("now", "fromtimestamp", "fromisoformat", "utcnow", "utcfromtimestamp", "today")
+    for f in ctx.prog.all_funcs():
+        for c in walk_local(f.node):
+            if not isinstance(c, ast.Call):
+                continue
+            fn_ = c.func
+            direct = isinstance(fn_, ast.Name) and fn_.id == "datetime" and (c.args or c.keywords)
+            via = isinstance(fn_, ast.Attribute) and isinstance(fn_.value, ast.Name) and fn_.value.id == "datetime" \
+                and fn_.attr not in EXACT and fn_.attr in ("strptime", "combine", "fromordinal", "fromisocalendar")
+            if direct or via:
+                yield Ob("C08.R3", ["C08", "C06", "C01"], f"{f.qual} | datetime built from components | {norm(c, 80)}{occ(f, c)}",
+                         False, f"`{norm(c, 60)}` rebuilds a datetime from broken-down fields: the sub-second part of the "
+                         f"stored instant is lost, so comparisons against it are no longer comparisons of instants",
+                         ctx.prog.loc(c))
